@@ -624,6 +624,28 @@ pub fn finish(
     samples.push(json!({"note": "no non-trivial run in this batch"}));
   }
   let level = if property == "C13" { "fault_enumeration" } else { "exploration" };
+  // C13 thorough: the enumerated history
+  let mut enumerated = json!(null);
+  let mut exhaustive = false;
+  {
+    let mut total = 0u64;
+    let mut seen: BTreeSet<u64> = BTreeSet::new();
+    for r in reports {
+      if let (Some(t), Some(i)) = (r.facts.get("c13.enum.total"), r.facts.get("c13.enum.index")) {
+        total = *t;
+        seen.insert(*i);
+      }
+    }
+    if total > 0 {
+      exhaustive = seen.len() as u64 == total;
+      enumerated = json!({
+        "what": "every mutating disk operation and every hit of every named point of one small history, each under the clean, torn and all-written recovery image",
+        "positions": total,
+        "executed": seen.len(),
+        "complete": exhaustive,
+      });
+    }
+  }
   let evidence = json!({
     "property_id": property,
     "tier": tier,
@@ -635,7 +657,8 @@ pub fn finish(
       "nontrivial_runs": nontrivial,
       "rule": rule,
       "samples": samples,
-      "exhaustive": false,
+      "exhaustive": exhaustive,
+      "enumerated_history": enumerated,
       "runs_per_hour": if wall > 0.0 { (evaluations as f64 / wall * 3600.0) as u64 } else { 0 },
       "seeds": format!("VERIF_SEED*2^32 + i, i in 0..{evaluations}"),
       "simulated_time_s": sim_ms / 1000,
